@@ -1517,6 +1517,13 @@ int QSexact_solver (mpq_QSdata * p_mpq,
 	}
 	QSVERIF_EVENT("exact.level.dbl", 53, simplexalgo);
 	p_dbl = QScopy_prob_mpq_dbl (p_mpq, "dbl_problem");
+	if (!p_dbl)
+	{
+		/* e.g. a parameter value the double problem refuses */
+		QSlog("QSexact_solver: could not build the double precision copy");
+		rval = 1;
+		goto CLEANUP;
+	}
 	if(__QS_SB_VERB <= DEBUG) p_dbl->simplex_display = 1;
 	if (ebasis && ebasis->nstruct)
 		dbl_QSload_basis (p_dbl, ebasis);
@@ -1679,6 +1686,12 @@ int QSexact_solver (mpq_QSdata * p_mpq,
 		}
 		QSVERIF_EVENT("exact.level.mpf", precision, last_status);
 		p_mpf = QScopy_prob_mpq_mpf (p_mpq, "mpf_problem");
+		if (!p_mpf)
+		{
+			QSlog("QSexact_solver: could not build the extended precision copy");
+			rval = 1;
+			goto CLEANUP;
+		}
 		if(DEBUG >= __QS_SB_VERB)
 		{
 			EGcallD(mpf_QSwrite_prob(p_mpf, "qsxprob.mpf.lp","LP"));
